@@ -377,6 +377,10 @@ func ApplyHeader(s State, bh types.BlockHeader, targetTimestamp time.Time) State
 	if s.Index.Height > 0 && s.Index.ID != bh.ParentID {
 		panic("consensus: cannot apply non-child block")
 	}
+	// A header commits to its timestamp in whole seconds (ID and encoding); a
+	// sub-second part of an in-memory value must not reach the state, or the
+	// node that built the block computes a different state than its peers.
+	bh.Timestamp = bh.Timestamp.Truncate(time.Second)
 
 	next := s
 	if bh.ParentID == (types.BlockID{}) {
